@@ -536,6 +536,17 @@ ${x | _('filter-list')}
 </%def>
 ${_('multi',
     'ignored') + _('multiline-expression-2')}
+${
+    _('expression-on-later-line')}
+${x
+   | f(_('filter-list-on-later-line'))}
+${except_hint(_('expression-starting-with-except'))}
+<% exceptional = _('block-starting-with-except') %>
+${(
+  x
+
+  or _('expression-after-blank-line')
+)}
 """
 
 
